@@ -1,11 +1,13 @@
 import Gpc.Driver.Num
 import Gpc.Driver.Search
+import Gpc.Driver.Utf8
 open Gpc.Proto
 
 def dispatch (toks : List String) : String :=
   match toks with
   | "num" :: rest => Gpc.Driver.num rest
   | "srch" :: rest => Gpc.Driver.srch rest
+  | "u8" :: rest => Gpc.Driver.u8 rest
   | _ => "bad-op"
 
 partial def loop (h : IO.FS.Stream) (out : IO.FS.Stream) : IO Unit := do
